@@ -17,8 +17,8 @@ pub const STEER: u64 = 16;
 
 pub fn n_cases(ctx: &Ctx) -> u64 {
     let base = match (ctx.variant.as_str(), ctx.thorough()) {
-        ("miri", false) => 8,
-        ("miri", true) => 60,
+        ("miri", false) => 112,
+        ("miri", true) => 3000,
         ("tsan", false) => 150,
         ("tsan", true) => 1500,
         (_, false) => 2500,
